@@ -578,7 +578,7 @@ def workload(tier, rng, shard, nshards, work):
                     call(audio.extractSubwav, inplace, inplace, s, e)
                     REC.cls("C17:extract-in-place" + (":long-recording" if n >= 5000 else ""))
             if k % 3 == 0:
-                d = rng.choice([0.0, rng.randrange(0, 200) / rate, rng.uniform(0, 0.05), 1 / 3, 0.01])
+                d = rng.choice([0.0, rng.randrange(0, 200) / rate, rng.uniform(0, 0.05), 1 / 3, 0.01, rng.choice([4095, 4096, 4097, 8193, 65537, 1025, 1024]) / rate])  # (also sample counts beside a power of two: one more than a block)
                 call(gen_.generateSilence, d)
                 call(gen_.generateSineWave, d, rng.choice([50, 200, 441]), rng.choice([None, 100, 1]))
         n2 = (300 if tier == "quick" else 10000) // nshards
